@@ -53,3 +53,11 @@ def register(check, TIERB_NOTE):
           "Sampling of histories and of delivery orders, not enumeration. Trusted: the harness's walker, its deep clone, the instrumenter's rewrite of map iteration. "
           "Excluded with reason: keyless lists and ordered lists nested in ordered lists (documented as unsupported by ygot).",
           "deterministic simulation: version histories on primary/replica with seeded map-iteration (delivery-order) schedules, leaf-set reference model, ddmin-minimised replay")
+    check("C04", "exploration",
+          "Seeded trees (unkeyed lists, binary values, simple and wrapper unions, keyed and ordered lists all populated) are put through DeepCopy, or two "
+          "non-conflicting projections through MergeStructs; then a seeded history of in-place writes hits one side at mutable locations enumerated by "
+          "reflection (pointer targets, map entries, slice elements, bytes of binary values, elements of unkeyed lists, wrapper-union structs, ordered-map "
+          "keys/valueMap) and after every write the deep fingerprint of every other side must be unchanged; DeepCopy's result is also compared with its "
+          "input (leaf set, ordered-list order, unkeyed-list length). Both aliasing defects this found are repaired in /repo.",
+          "DESIGN.md §5 (Tier B, C04)", TIERB_NOTE,
+          "deterministic simulation: seeded mutation histories on copy/original pairs with deep-fingerprint frame oracle, ddmin-minimised replay")
